@@ -493,12 +493,17 @@ func PromoteOptionsToConstructor(selector Selector, optionNames []string) Rewrit
 					return nil, fmt.Errorf("could not apply PromoteOptionsToConstructor builder veneer: option '%s' has no argument or no assignment", optName)
 				}
 
-				// TODO: do it for every argument/assignment?
-				arg := opt.Args[0].DeepCopy()
-				arg.Type.Nullable = false
+				// every argument is promoted, with every assignment: an assignment can
+				// use several arguments (`labels[key] = label`, `Link{title: title, url: url}`)
+				for _, optArg := range opt.Args {
+					arg := optArg.DeepCopy()
+					arg.Type.Nullable = false
 
-				builders[i].Constructor.Args = append(builders[i].Constructor.Args, arg)
-				builders[i].Constructor.Assignments = append(builders[i].Constructor.Assignments, opt.Assignments[0])
+					builders[i].Constructor.Args = append(builders[i].Constructor.Args, arg)
+				}
+				for _, assignment := range opt.Assignments {
+					builders[i].Constructor.Assignments = append(builders[i].Constructor.Assignments, assignment.DeepCopy())
+				}
 
 				builders[i].AddToVeneerTrail(fmt.Sprintf("PromoteOptionsToConstructor[%s]", optName))
 			}
